@@ -15,9 +15,27 @@ import (
 type Mutant struct {
 	Class  string // corruption class (see Classes)
 	Target string // human-readable target
-	Img    []byte
-	Pure   bool // the listed corruption is the only inconsistency D expects
+	Edits  []Edit // byte edits that turn the base image into the mutant
+	Pure   bool   // the listed corruption is the only inconsistency D expects
 }
+
+// Edit overwrites len(Data) bytes at offset Off.
+type Edit struct {
+	Off  int
+	Data []byte
+}
+
+// Apply returns a fresh image with the mutant's edits applied to base.
+func (m Mutant) Apply(base []byte) []byte {
+	out := append([]byte(nil), base...)
+	for _, e := range m.Edits {
+		copy(out[e.Off:], e.Data)
+	}
+	return out
+}
+
+func u64(v uint64) []byte { b := make([]byte, 8); le.PutUint64(b, v); return b }
+func u16(v uint16) []byte { b := make([]byte, 2); le.PutUint16(b, v); return b }
 
 // Classes lists the corruption classes of the property.
 var Classes = []string{
@@ -34,11 +52,10 @@ var Classes = []string{
 	"key-order:parent-hi",
 }
 
-func clone(img []byte) []byte { return append([]byte(nil), img...) }
 
-// rewriteFreelist writes ids (sorted by the caller's choice) into the freelist
-// allocation of r. nil if they do not fit or the 0xFFFF convention would be needed.
-func rewriteFreelist(img []byte, r *Result, ids []uint64) []byte {
+// rewriteFreelist returns the edits that write ids into the freelist allocation of r;
+// nil if they do not fit or the 0xFFFF convention is (or would be) in use.
+func rewriteFreelist(img []byte, r *Result, ids []uint64) []Edit {
 	if !r.HasFreelist || len(r.FreelistPages) == 0 || len(ids) >= 0xFFFF {
 		return nil
 	}
@@ -46,16 +63,15 @@ func rewriteFreelist(img []byte, r *Result, ids []uint64) []byte {
 	if 8*len(ids) > room {
 		return nil
 	}
-	out := clone(img)
 	off := int(r.FreelistPages[0]) * r.PageSize
-	if le.Uint16(out[off+10:]) == 0xFFFF {
+	if le.Uint16(img[off+10:]) == 0xFFFF {
 		return nil
 	}
-	le.PutUint16(out[off+10:], uint16(len(ids)))
+	data := make([]byte, 8*len(ids))
 	for i, id := range ids {
-		le.PutUint64(out[off+PageHeaderSize+8*i:], id)
+		le.PutUint64(data[8*i:], id)
 	}
-	return out
+	return []Edit{{off + 10, u16(uint16(len(ids)))}, {off + PageHeaderSize, data}}
 }
 
 func withoutIndex(ids []uint64, i int) []uint64 {
@@ -187,20 +203,19 @@ func Mutants(img []byte, r *Result, emit func(m Mutant) bool) {
 			if containsID(bsub, a.page) || containsID(asub, b.root) || containsID(asub, b.page) {
 				continue
 			}
-			out := clone(img)
-			_, _, vo, vsz := leafElem(out, int(a.page)*ps, a.idx)
+			_, _, vo, vsz := leafElem(img, int(a.page)*ps, a.idx)
 			if vsz < BucketHdrSize {
 				continue
 			}
-			le.PutUint64(out[vo:], b.root)
+			out := []Edit{{vo, u64(b.root)}}
 			pure := false
 			if r.HasFreelist && sorted {
 				// the orphaned tree of a goes onto the freelist so that the double reference is the only inconsistency
 				nf := append([]uint64(nil), free...)
 				nf = append(nf, asub...)
 				sort.Slice(nf, func(i, j int) bool { return nf[i] < nf[j] })
-				if o2 := rewriteFreelist(out, r, nf); o2 != nil {
-					out, pure = o2, true
+				if o2 := rewriteFreelist(img, r, nf); o2 != nil {
+					out, pure = append(out, o2...), true
 				}
 			}
 			if !emit(Mutant{"double-ref:bucket-root", fmt.Sprintf("bucket element %d of leaf %d now points at root page %d of another bucket (was %d)", a.idx, a.page, b.root, a.root), out, pure}) {
@@ -226,9 +241,8 @@ func Mutants(img []byte, r *Result, emit func(m Mutant) bool) {
 			if j < 0 || pi.Children[j] == pi.Children[i] || containsID(stack, pi.Children[j]) {
 				continue
 			}
-			out := clone(img)
-			_, _, po := branchElem(out, int(id)*ps, i)
-			le.PutUint64(out[po:], pi.Children[j])
+			_, _, po := branchElem(img, int(id)*ps, i)
+			out := []Edit{{po, u64(pi.Children[j])}}
 			if !emit(Mutant{"double-ref:branch-elem", fmt.Sprintf("element %d of branch %d now points at page %d like element %d (was %d)", i, id, pi.Children[j], j, pi.Children[i]), out, false}) {
 				return
 			}
@@ -238,8 +252,7 @@ func Mutants(img []byte, r *Result, emit func(m Mutant) bool) {
 	// ---- invalid page type (neither the branch nor the leaf bit)
 	for _, id := range ids {
 		for _, fl := range []uint16{0x00, FlagMeta, FlagFreelist, 0x20, 0x14, 0x8000} {
-			out := clone(img)
-			le.PutUint16(out[int(id)*ps+8:], fl)
+			out := []Edit{{int(id)*ps + 8, u16(fl)}}
 			if !emit(Mutant{"bad-type", fmt.Sprintf("flags of reachable page %d set to %#x", id, fl), out, false}) {
 				return
 			}
@@ -266,26 +279,19 @@ func Mutants(img []byte, r *Result, emit func(m Mutant) bool) {
 		// (a) swap two neighbouring keys of equal length / make key i equal to key i+1
 		for i := 0; i+1 < n; i++ {
 			if len(pi.Keys[i]) == len(pi.Keys[i+1]) {
-				out := clone(img)
-				k1, s1 := keyAt(out, i)
-				k2, _ := keyAt(out, i+1)
-				tmp := append([]byte(nil), out[k1:k1+s1]...)
-				copy(out[k1:k1+s1], out[k2:k2+s1])
-				copy(out[k2:k2+s1], tmp)
+				k1, s1 := keyAt(img, i)
+				k2, _ := keyAt(img, i+1)
+				out := []Edit{{k1, append([]byte(nil), img[k2:k2+s1]...)}, {k2, append([]byte(nil), img[k1:k1+s1]...)}}
 				if !emit(Mutant{cls, fmt.Sprintf("keys %d and %d of page %d swapped", i, i+1, id), out, cls == "key-order:leaf"}) {
 					return
 				}
-				out = clone(img)
-				k1, s1 = keyAt(out, i)
-				k2, _ = keyAt(out, i+1)
-				copy(out[k1:k1+s1], out[k2:k2+s1])
+				out = []Edit{{k1, append([]byte(nil), img[k2:k2+s1]...)}}
 				if !emit(Mutant{cls, fmt.Sprintf("key %d of page %d made equal to key %d", i, id, i+1), out, cls == "key-order:leaf"}) {
 					return
 				}
 			} else if len(pi.Keys[i]) > 0 && pi.Keys[i][0] != 0xFF && (len(pi.Keys[i+1]) == 0 || pi.Keys[i+1][0] != 0xFF) {
-				out := clone(img)
-				k1, _ := keyAt(out, i)
-				out[k1] = 0xFF
+				k1, _ := keyAt(img, i)
+				out := []Edit{{k1, []byte{0xFF}}}
 				if !emit(Mutant{cls, fmt.Sprintf("first byte of key %d of page %d raised to 0xFF (next key starts lower)", i, id), out, cls == "key-order:leaf"}) {
 					return
 				}
@@ -310,10 +316,10 @@ func Mutants(img []byte, r *Result, emit func(m Mutant) bool) {
 		}
 		// lower side: first key pushed below the parent's separator
 		if sep := par.Keys[ci]; len(sep) > 0 && len(pi.Keys[0]) > 0 && sep[0] > 0 && (ci > 0 || true) {
-			out := clone(img)
-			k0, _ := keyAt(out, 0)
-			out[k0] = 0x00
-			if bytes.Compare(out[k0:k0+len(pi.Keys[0])], sep) < 0 {
+			k0, _ := keyAt(img, 0)
+			out := []Edit{{k0, []byte{0x00}}}
+			lowered := append([]byte{0x00}, pi.Keys[0][1:]...)
+			if bytes.Compare(lowered, sep) < 0 {
 				if !emit(Mutant{"key-order:parent-lo", fmt.Sprintf("first key of page %d lowered below its separator in parent %d", id, pi.Parent), out, false}) {
 					return
 				}
@@ -324,9 +330,8 @@ func Mutants(img []byte, r *Result, emit func(m Mutant) bool) {
 			next := par.Keys[ci+1]
 			last := pi.Keys[n-1]
 			if len(last) > 0 && len(next) > 0 && next[0] != 0xFF {
-				out := clone(img)
-				kl, _ := keyAt(out, n-1)
-				out[kl] = 0xFF
+				kl, _ := keyAt(img, n-1)
+				out := []Edit{{kl, []byte{0xFF}}}
 				if !emit(Mutant{"key-order:parent-hi", fmt.Sprintf("last key of page %d raised above the next separator in parent %d", id, pi.Parent), out, false}) {
 					return
 				}
